@@ -16,6 +16,7 @@
    carries its result), Mailbox.expunge / append / pack as atomic INBOX updates. *)
 From Asimap Require Import Base.Res Base.Bytes Gen.DotStuff Spec.Pop3Spec.
 Open Scope Z_scope.
+Open Scope list_scope.
 
 Record msg := { m_key : Z; m_uid : Z; m_c : content }.
 
@@ -58,7 +59,7 @@ Definition top_data (c : content) (k : Z) : list Z :=
   c_hdr c ++ crlf ++ bytes_join crlf (firstn (Z.to_nat k) bl').
 
 (* ------------------------------------------------------------ session helpers *)
-Definition count (s : sess) : Z := Z.of_nat (length (s_keys s)).      (* msg_count *)
+Definition count (s : sess) : Z := Z.of_nat (List.length (s_keys s)).      (* msg_count *)
 Definition idx (n : Z) : nat := Z.to_nat (n - 1).
 
 (* _valid_msg_num, after int() *)
